@@ -635,6 +635,10 @@ func setRangedHeaders(rr *requestRange, contentLength int64, statusCode int, h *
 	if (rr.s != nil && *rr.s > contentLength-1) || (rr.e != nil && *rr.e > contentLength-1) {
 		return 416, h
 	}
+	if rr.s == nil && rr.e != nil && *rr.e == 0 {
+		// A suffix of length zero selects nothing
+		return 416, h
+	}
 
 	h.Set("content-length", strconv.FormatInt(rr.size(contentLength), 10))
 	h.Set("content-range", rr.contentRangeValue(contentLength))
@@ -921,7 +925,12 @@ func (rr *requestRange) start(cl int64) int64 {
 	if rr.e != nil && rr.s != nil {
 		return *rr.s
 	} else if rr.e != nil && rr.s == nil {
-		return cl + *rr.e
+		// A suffix longer than the resource selects all of it
+		start := cl + *rr.e
+		if start < 0 {
+			return 0
+		}
+		return start
 	} else if rr.e == nil && rr.s != nil {
 		return *rr.s
 	}
@@ -948,9 +957,7 @@ func (rr *requestRange) size(cl int64) int64 {
 		}
 		return *rr.e - *rr.s + 1
 	} else if rr.e != nil && rr.s == nil {
-		end := cl - 1
-		start := cl + *rr.e - 1
-		return end - start
+		return cl - rr.start(cl)
 	} else if rr.e == nil && rr.s != nil {
 		return cl - *rr.s
 	}
